@@ -26,6 +26,8 @@
 //!  6. wide composites (5, 6 qubits) whose 2nd/3rd sub-gate is itself a gate on >= 5 qubits (nested
 //!     composite, Kronecker tree, loop) placed after sign-flipping gates: all weight-1 and weight-2
 //!     strings and a random sample;
+//!  8. wide loops (33, 34, 40, 64, 65 qubits; no matrix): several strings on ONE Loop object, among them
+//!     strings that agree on the last 32 positions and differ before, and the other way round;
 //!  7. building histories: the flag of the circuit after every building call (a conditional
 //!     non-Clifford gate as the LAST call in half of them), optionally one execution in between;
 //!  5. generated circuits with conditional gates: `is_stabilizer_circuit`, the representation
@@ -515,6 +517,74 @@ fn gen_history(rng: &mut SplitMix64) -> (usize, usize, Vec<String>)
     (nq, nc, ops)
 }
 
+// ------------------------------------------------------------------------------------------------
+// wide loops: too wide for a matrix, many calls on one object
+
+fn gen_wide_loop(n: usize, rng: &mut SplitMix64) -> String
+{
+    let special = [0usize, 1, 31, 32, 33.min(n - 1), n - 1, n - 32, n - 33, n / 2];
+    let pickq = |rng: &mut SplitMix64| -> usize { if rng.below(3) == 0 { rng.below(n as u64) as usize } else { *rng.pick(&special) } };
+    let k = 4 + rng.below(6) as usize;
+    let mut items: Vec<String> = vec![];
+    for _ in 0..k
+    {
+        if rng.coin()
+        {
+            let a = pickq(rng);
+            let mut b = pickq(rng);
+            while b == a { b = rng.below(n as u64) as usize; }
+            items.push(format!("{} 2 {} {}", rng.pick(&["CX", "CZ", "Swap", "CY"]), a, b));
+        }
+        else { items.push(format!("{} 1 {}", rng.pick(&["H", "S", "X", "Y", "Sdg", "V", "Z"]), pickq(rng))); }
+    }
+    let body = format!("{} {} {}", n, items.len(), items.join(" "));
+    let lp = format!("Loop wl{} {} wb{} {}", rng.below(100), 1 + rng.below(3), rng.below(100), body);
+    match rng.below(4)
+    {
+        // the same Loop object reached through a composite, on permuted qubits
+        0 => { let mut bits: Vec<usize> = (0..n).collect(); if rng.coin() { bits.reverse(); }
+               format!("Comp top{} {} 2 {} 1 {} {} {} {}", rng.below(100), n, rng.pick(&["H", "X", "S"]), rng.below(n as u64), lp, n, join(&bits)) },
+        _ => lp
+    }
+}
+
+fn emit_wide_loop(out: &mut Out, term: &str, rng: &mut SplitMix64)
+{
+    let g = match parse_guarded(term) { Some(g) => g, None => { out.case(&format!("isstab | {}", term), "panic parse"); return; } };
+    let n = g.nr_affected_bits();
+    out.case(&format!("isstab | {}", term), if g.is_stabilizer() { "true" } else { "false" });
+    let rand_str = |rng: &mut SplitMix64| -> Vec<usize> { (0..n).map(|_| rng.below(4) as usize).collect() };
+    let mut strings: Vec<Vec<usize>> = vec![];
+    for _ in 0..3
+    {
+        let base = rand_str(rng);
+        strings.push(base.clone());
+        // same last 32 positions, different before
+        for _ in 0..2
+        {
+            let mut d = base.clone();
+            let q = rng.below((n - 32) as u64) as usize;
+            d[q] = (d[q] + 1 + rng.below(3) as usize) % 4;
+            if rng.coin() { for x in d.iter_mut().take(n - 32) { *x = rng.below(4) as usize; } d[q] = (base[q] + 1) % 4; }
+            strings.push(d);
+        }
+        // same leading positions, different within the last 32
+        let mut d = base.clone();
+        let q = n - 32 + rng.below(32) as usize;
+        d[q] = (d[q] + 1 + rng.below(3) as usize) % 4;
+        strings.push(d);
+        // the same string again
+        strings.push(base);
+    }
+    // weight-1 strings at the front and at the back, identity, a few random ones
+    strings.push(vec![0; n]);
+    for &q in [0usize, 1, n - 33, n - 32, n - 1].iter() { let mut d = vec![0; n]; d[q] = 1 + rng.below(3) as usize; strings.push(d); }
+    for _ in 0..3 { strings.push(rand_str(rng)); }
+    let req = format!("conjs | {} | {}", term, strings.iter().map(|d| join(d)).collect::<Vec<_>>().join(" ; "));
+    let ans = strings.iter().map(|d| conj_one(&g, d)).collect::<Vec<_>>().join(" ; ");
+    out.case(&req, &ans);
+}
+
 trait AddRes { fn add_res(self, r: &str) -> String; }
 impl AddRes for String { fn add_res(self, r: &str) -> String { format!("{} # res {}", self, r) } }
 
@@ -540,6 +610,9 @@ fn main()
         "Loop l 0 b 1 1 H 1 0", "Loop l 1 b 1 1 S 1 0", "Loop l 2 b 1 1 S 1 0", "Loop l 3 b 2 2 H 1 0 CX 2 0 1",
         "Loop l 0 b 1 1 T 1 0", "Loop l 2 b 1 1 T 1 0", "Comp c0 2 2 H 1 0 Loop z 0 q 1 1 T 1 0 1 1",
         "Kron Loop z 0 q 1 1 Tdg 1 0 H", "Loop o 2 b 2 1 Loop i 3 c 2 2 CX 2 1 0 S 1 1 2 0 1",
+        // sub-gates that share a description but not the claim
+        "Comp o 2 2 Comp same 1 1 H 1 0 1 0 Comp same 1 1 T 1 0 1 1", "Comp o 2 2 Comp same 1 1 T 1 0 1 0 Comp same 1 1 H 1 0 1 1",
+        "Comp o 2 3 X 1 0 Loop a 2 same 1 1 S 1 0 1 0 Loop b 2 same 1 1 T 1 0 1 1", "Kron Comp same 1 1 H 1 0 Comp same 1 1 Tdg 1 0",
         "Kron Kron H S CX", "Kron CY Kron V CX", "Comp four 4 4 CX 2 3 0 Kron H Sdg 2 1 2 CZ 2 0 2 Swap 2 3 1",
     ].iter() { emit_term(&mut out, term, &mut rng, true, false); }
 
@@ -602,6 +675,15 @@ fn main()
         let n = if i % 3 == 2 { 6 } else { 5 };
         let term = gen_wide(n, &mut rng);
         emit_wide(&mut out, &term, if th { 256 } else { 48 }, &mut rng);
+    }
+
+    // 8. wide loops
+    emit_wide_loop(&mut out, "Loop wl 2 wb 33 4 H 1 0 CX 2 0 32 S 1 1 CZ 2 1 31", &mut rng);
+    for i in 0..(if th { 60 } else { 10 })
+    {
+        let n = [33usize, 34, 40, 64, 65][i % 5];
+        let term = gen_wide_loop(n, &mut rng);
+        emit_wide_loop(&mut out, &term, &mut rng);
     }
 
     // 7. building histories
